@@ -47,25 +47,27 @@ def std_dict(cfg):
         add(0x1280, 2, 3, 2, le(0x580, 4))
         add(0x1280, 3, 3, 0, str(cfg["csdo"]))
     rp = cfg.get("rpdo", [[0x200 + n, 254, [link(0x2101, 0, 8)]]])
-    for k, (cid, typ, maps) in enumerate(rp):
+    rp = [list(x) + [len(x[2])] if len(x) < 4 else list(x) for x in rp]
+    for k, (cid, typ, maps, cnt) in enumerate(rp):
         add(0x1400 + k, 0, 130, 0, "2")
         add(0x1400 + k, 1, 3, 8, le(cid, 4))
         add(0x1400 + k, 2, 3, 9, str(typ))
-    for k, (cid, typ, maps) in enumerate(rp):
+    for k, (cid, typ, maps, cnt) in enumerate(rp):
         nmap = max(len(maps), cfg.get("mapslots", 0))
-        add(0x1600 + k, 0, 3, 10, str(len(maps)))
+        add(0x1600 + k, 0, 3, 10, str(cnt))
         for j in range(nmap):
             add(0x1600 + k, j + 1, 3, 11, le(maps[j] if j < len(maps) else 0, 4))
     tp = cfg.get("tpdo", [[0x40000180 + n, 254, 0, 0, [link(0x2100, 0, 8)]]])
-    for k, (cid, typ, inh, evt, maps) in enumerate(tp):
+    tp = [list(x) + [len(x[4])] if len(x) < 6 else list(x) for x in tp]
+    for k, (cid, typ, inh, evt, maps, cnt) in enumerate(tp):
         add(0x1800 + k, 0, 130, 0, "5")
         add(0x1800 + k, 1, 3, 8, le(cid, 4))
         add(0x1800 + k, 2, 3, 9, str(typ))
         add(0x1800 + k, 3, 3, 1, le(inh, 2))
         add(0x1800 + k, 5, 3, 12, le(evt, 2))
-    for k, (cid, typ, inh, evt, maps) in enumerate(tp):
+    for k, (cid, typ, inh, evt, maps, cnt) in enumerate(tp):
         nmap = max(len(maps), cfg.get("mapslots", 0))
-        add(0x1A00 + k, 0, 3, 10, str(len(maps)))
+        add(0x1A00 + k, 0, 3, 10, str(cnt))
         for j in range(nmap):
             add(0x1A00 + k, j + 1, 3, 11, le(maps[j] if j < len(maps) else 0, 4))
     for o in cfg.get("objs", [[0x2100, 0, 7, 0, 0], [0x2101, 0, 7, 0, 0]]):
